@@ -2064,7 +2064,7 @@ impl World {
                 if !dmg.contains_key(&k) {
                     continue;
                 }
-                match g.below(7) {
+                match g.below(8) {
                     0 => {
                         let v = dmg.get_mut(&k).unwrap();
                         if !v.is_empty() {
@@ -2152,6 +2152,34 @@ impl World {
                         let name = forced_name.unwrap_or(name);
                         desc.push(format!("inject {}", name));
                         dmg.entry(name).or_insert(body);
+                    }
+                    7 => {
+                        // a twin of a real block that names TWO packs (the format allows a list): its own and another
+                        // stored pack, or one that is stored nowhere - then the twin must be held back
+                        let cands: Vec<&String> = keys
+                            .iter()
+                            .filter(|k| k.ends_with(".delta"))
+                            .filter(|k| serde_json::from_slice::<Value>(&items[*k]).ok().and_then(|v| v.get("k").and_then(|x| x.as_array().map(|a| a.len() == 1))).unwrap_or(false))
+                            .collect();
+                        let packs: Vec<String> = keys.iter().filter(|k| k.ends_with(".pack")).map(|k| k.trim_end_matches(".pack").to_string()).collect();
+                        if !cands.is_empty() && !packs.is_empty() {
+                            let bk = (*g.pick(&cands)).clone();
+                            let mut v: Value = serde_json::from_slice(&items[&bk]).unwrap();
+                            let second = if g.chance(1, 3) { g.pick(&packs).clone() } else { digest_bytes(format!("nopack{}", g.below(1000)).as_bytes()) };
+                            let mut ks: Vec<String> = v["k"].as_array().unwrap().iter().filter_map(|x| x.as_str().map(|s| s.to_string())).collect();
+                            if !ks.contains(&second) {
+                                ks.push(second);
+                            }
+                            ks.sort();
+                            v["k"] = json!(ks);
+                            // (a note in the metadata makes it a different block even when the list is unchanged)
+                            v["i"] = json!({"twin": g.below(1000)});
+                            let b = js(&v).into_bytes();
+                            let idx = bk.split('-').next().unwrap_or("1").to_string();
+                            let name = format!("{}-{}.delta", idx, digest_bytes(&b));
+                            desc.push(format!("twin of {} naming {} packs as {}", bk, ks.len(), name));
+                            dmg.entry(name).or_insert(b);
+                        }
                     }
                     6 => {
                         // a valid block's bytes stored once more under another index (digest right, index wrong)
